@@ -211,6 +211,17 @@ func propSpecs() map[string]*PropSpec {
 		Stubs:   []string{tokStub + " (operator shapes only; the use-site family runs the real lexer on concrete programs)"},
 		Assume:  []string{"reference: lexical scoping evaluated on the real parser's tree (harness/h/c06.go, valmap.go); value algebra as in C01"},
 	})
+	add(&PropSpec{
+		ID: "C16", Title: "the command-line tool compiles exactly the statements it is given", CLI: true,
+		Quick:    []RunSpec{rs("H_C16", 1, 0), rs("H_C16", 2, 0), rs("H_C16multi"), {Harness: "H_C16long", Budget: 80000000}},
+		Thorough: []RunSpec{rs("H_C16", 1, 0), rs("H_C16", 2, 0), rs("H_C16", 3, 1), rs("H_C16multi"), {Harness: "H_C16long", Budget: 80000000}},
+		Covers:   []string{"some-output", "some-statement-failed", "unterminated-final", "read-failure", "multi", "long-line"},
+		Bounds: map[string]string{"quick": "scripts of <= 2 statement slots (9 templates: good/bad/shadowing lets, queries with and without lets, failing query, comment) x 4 separators x line break inside a statement x terminated or not x trailing newline x two read-chunk regimes x read failure at an arbitrary offset; three input files; one line of 70 KB",
+			"thorough": "<= 3 statement slots (three-statement scripts without read failure and with one chunk regime)"},
+		Outside: []string{"main, cobra flag parsing, os.Open/Create, -o, the terminal probe and the mapping of run's error to the exit status (I/O behind os: not encodable; four lines, read)", "an empty piece between two semicolons and an unterminated let at end of input (don't-care: the statement leaves them open)"},
+		Stubs:   []string{"input = harness io.Reader with selector-chosen chunking and failure; output = strings.Builder (engine model); bufio.Scanner interpreted from its source; bytes.IndexByte modelled"},
+		Assume:  []string{"oracle calls the real pql.Compile per statement with the prelude of accepted lets"},
+	})
 	seeds13 := func(n int64) []RunSpec {
 		var r []RunSpec
 		for i := int64(0); i < 20; i++ {
